@@ -22,7 +22,7 @@ import inspect
 import typing as tp
 
 from typelib import unmarshals
-from typelib.py import classes, compat, inspection
+from typelib.py import classes, compat, inspection, refs
 
 P = compat.ParamSpec("P")
 R = tp.TypeVar("R")
@@ -126,9 +126,15 @@ def _get_binding(obj: tp.Callable) -> AbstractBinding:
     max_pos: int | None = None
     varkwd: unmarshals.AbstractUnmarshaller | None = None
     varpos: unmarshals.AbstractUnmarshaller | None = None
+    module = getattr(obj, "__module__", None)
     for i, (name, param) in enumerate(params.items()):
+        annotation = param.annotation
+        # A postponed annotation means what it means where the callable was defined,
+        #   not where it happens to be bound from.
+        if annotation.__class__ is str and module is not None:
+            annotation = refs.forwardref(annotation, is_argument=True, module=module)
         unmarshaller: unmarshals.AbstractUnmarshaller = unmarshals.unmarshaller(
-            param.annotation
+            annotation
         )
         # Bind by index what can be passed by position, by name what can be passed
         #   by keyword: the name of any other parameter is a valid key of `**kwargs`.
